@@ -239,6 +239,18 @@ def sc_connect(rng, k, deep):
     L += ["m tkwait %d 0 1 10000" % k, "m quiesce", "m tkcount %d" % k, "m tkfree %d" % k, "m reset"]
     return L
 
+def sc_eof_with_data(rng, k, deep):
+    """the last bytes and the close are there before the task looks: one handler run sees data, then recv() = 0"""
+    tr = rng.randint(2, 5); off = rng.randint(0, 2); size = off + tr + rng.randint(0, 1)
+    efl = rng.choice([0, 1, 2]); every = rng.random() < 0.3; n = rng.randint(1, tr - 1)
+    P = policy(rng, efl, allow_plain=(efl != 0))
+    L = ["m tknew %d 0 %d %d %d %d" % (k, size, off, tr, off)] + pol_lines(k, P)
+    L.append("m tkcap %d %s" % (k, rng.choice(["0", "1", "2,1", "0,0,1"])))
+    L += ["m peerw %d 1 %d" % (k, n), "m peer%s %d" % (rng.choice(["close", "shut"]), k)]
+    L += w0(["tkcreate %d 0 0 %d" % (k, 2 if every else 0), "tkstart %d %d 0 %d %d 0" % (k, rng.choice([0, 1]), efl, rng.choice([0, 60000]))])
+    L += ["m quiesce", "m tkcount %d" % k, "m tkfree %d" % k, "m reset"]
+    return L
+
 def sc_trickle(rng, k, deep):
     """bytes arrive one event at a time into a larger window: the library accumulates across events (tot_transfered_size)
     and reports the sum with the next condition (window full, EOF, timeout)"""
@@ -258,7 +270,7 @@ def sc_trickle(rng, k, deep):
     L += ["m quiesce", "m tkcount %d" % k, "m tkfree %d" % k, "m reset"]
     return L
 
-KINDS = [("trickle", sc_trickle, 3), ("notify-pipe", sc_notify, 3), ("pkt-rcvr", sc_pkt, 3), ("accept", sc_accept, 2), ("connect", sc_connect, 2),
+KINDS = [("trickle", sc_trickle, 3), ("eof-with-data", sc_eof_with_data, 2), ("notify-pipe", sc_notify, 3), ("pkt-rcvr", sc_pkt, 3), ("accept", sc_accept, 2), ("connect", sc_connect, 2),
          ("stream-read", sc_stream_read, 10), ("stream-write", sc_stream_write, 4), ("file", sc_file, 3),
          ("errpath", sc_errpath, 2), ("dispatch-eof", sc_dispatch_eof, 1), ("oneshot-partial", sc_oneshot_partial, 1)]
 
@@ -475,7 +487,7 @@ def run(ctx):
     # (ii) the implementation
     builds = [None] if ctx.quick else [None, "asan"]
     exes = {b: build(d, b) for b in builds}
-    nb, per = (4, 26) if ctx.quick else (24, 90)
+    nb, per = (4, 28) if ctx.quick else (40, 100)
     st = {"traces": 0, "events": 0, "tlc_states": 0, "tlc_wall": 0.0, "reruns": 0, "devs": {}, "props": set()}
     jobs = []
     for b in range(nb):
